@@ -2498,6 +2498,7 @@ DLLIMPORT int cfg_opt_nprint_var(cfg_opt_t *opt, unsigned int index, FILE *fp)
 static void cfg_indent(FILE *fp, int indent)
 {
 	while (indent--)
+		CFG_VERIF_LOOP(indent)
 		fprintf(fp, "  ");
 }
 
